@@ -549,6 +549,31 @@ func c06Stream(o *Out, rng *rand.Rand, n int) {
 			g.run(o, rng, "boundary-idlen")
 		}
 	}
+	// "plus-only" escaping: values whose only escape is '+' for a space (no '%' in the whole
+	// value, or none in the whole query) - in ids, in the event name, in unrelated parameters
+	for i := 0; i < 24; i++ {
+		mk := func() string {
+			alpha := "abcdefghijklmnopqrstuvwxyzABCDEFGHIJKLMNOPQRSTUVWXYZ0123456789-_.~"
+			b := make([]byte, 20)
+			for j := range b {
+				b[j] = alpha[rng.Intn(len(alpha))]
+			}
+			for k := rng.Intn(4) + 1; k > 0; k-- {
+				b[rng.Intn(20)] = '+'
+			}
+			return string(b)
+		}
+		ih, pid := mk(), mk()
+		if i%3 == 1 { // one of the two ids percent-escaped, the other plus-only
+			ih = strings.ReplaceAll(ih, "+", "%20")
+		}
+		uri := "/announce?info_hash=" + ih + "&peer_id=" + pid + "&port=6881&left=1&downloaded=0&uploaded=0&extra=a+b"
+		if i%4 == 3 {
+			uri += "&event=+started"
+		}
+		c06Announce(o, "plus-only", uri, c06Opts{MaxNW: 100, DefNW: 50, MaxIH: 50}, nil, "192.0.2.7:6881")
+		c06Scrape(o, "plus-only", "/scrape?info_hash="+ih+"&info_hash="+pid, 50)
+	}
 	// fixed corner URIs
 	for _, u := range []string{"", "?", "/announce", "/announce?", "/announce??", "/announce?&&;;", "/announce?=", "/announce?=&=", "/announce?%", "/announce?a=%",
 		"/announce?a=%4", "/announce?a=%4g", "/announce?%zz=1", "/announce?a=%%41", "/announce?info_hash", "/announce?info_hash=", "/announce?info_hash=%41",
